@@ -97,3 +97,15 @@ func init() {
 		QuickBudgetS: 240, ThoroughBudgetS: 1500,
 	}
 }
+
+func init() {
+	propMeta["C06"] = Meta{
+		Level: "exploration",
+		Rule: "Each evaluation is one seeded operation history on one key: genesis by the trusted dealer over a generated access structure, then 1-5 operations drawn from {refresh, recover a lost share (with or without trusted anchor), redistribute to another generated structure / holder set driven by a random qualified set of previous holders (with or without anchor), sign with a qualified quorum of the current epoch, persist+crash+reload, mix shares of two epochs of the same structure (reference reconstruction and a signing attempt), refresh cut short by a crash of one party at a scheduler-chosen point}, and a closing signature. Every protocol step runs through the real session + redistribution / signing runners over the simulated network with benign faults. Reference model: (x, Y) reconstructed once at genesis by reference linear algebra never change. Non-trivial = at least one operation. Distinct = hash of (workload, operation kinds, decision trace).",
+		Assumptions: []string{"erasure of old shares and orchestration across parties after an abort are the caller's job (documented); after an aborted run only the integrity of inputs and the soundness of any shard that was nevertheless obtained are required", "epoch mixing is meaningful only between epochs of the same structure and holder set"},
+		Real: []string{"pkg/mpc/redistribute, pkg/mpc/zero/hjky", "pkg/mpc/session", "pkg/mpc/signatures/schnorr/lindell22 (BIP-340, Schnorr), dkls23-softspoken", "pkg/mpc/dkg/trusteddealer", "pkg/mpc/sharing", "pkg/network router, echo, exchange"},
+		Stub: append(append([]string{}, commonStub...), "disk (sim.Disk)"),
+		ExpectedProbes: []string{"op_refresh", "op_recover", "op_redistribute", "op_sign", "op_persist_restart", "op_mix", "op_abort", "aborted_operations", "mixed_epoch_signing_refused", "mixed_reconstructions_checked", "signatures_under_genesis_key", "dup", "redeliver", "inject"},
+		QuickBudgetS: 300, ThoroughBudgetS: 2400,
+	}
+}
